@@ -5,7 +5,7 @@ from ..ref import P, L, to32, le
 
 REQUIRED = ['dec:torsion-enc', 'dec:noncanon-y', 'dec:reject', 'dec:accept', 'dec:x0-signbit', 'rel:Q=P', 'rel:Q=-P',
             'rel:Q=P+T', 'rel:indep', 'history', 'pred:identity', 'pred:small', 'pred:mixed', 'pred:prime', 'eq:scaled',
-            'roundtrip', 'sum-empty', 'cond', 'history:scalarmul', 'history:groupview']
+            'roundtrip', 'sum-empty', 'cond', 'history:scalarmul', 'history:groupview', 'history:viamont']
 
 
 class Reg:
@@ -75,7 +75,7 @@ def step(ctx, regs, op=None):
     rng = ctx.rng
     op = op or rng.choice(['add', 'add', 'sub', 'neg', 'dbl', 'mulcof', 'sum', 'eq', 'preds', 'roundtrip', 'csel',
                            'addassign', 'subassign', 'pow2', 'valid', 'cassign', 'cswap', 'cneg',
-                           'mul', 'mulbase', 'dsm', 'msm', 'groupview'])
+                           'mul', 'mulbase', 'dsm', 'msm', 'groupview', 'viamont'])
     p = rng.choice(regs)
     q = rng.choice(regs)
     if op in ('add', 'addassign'):
@@ -111,7 +111,9 @@ def step(ctx, regs, op=None):
         aff = ref.IDENT
         for it in items:
             aff = ref.aff_add(aff, it.aff)
-        rid = ctx.add('ed.sum', lst([it.tok for it in items]), expect=pts.expect_ed(aff),
+        enc_ = ref.ed_compress(aff).hex()
+        rid = ctx.add('ed.sum', lst([it.tok for it in items]),
+                      expect=pts.both(pts.expect_ed(aff), *[pts.tok_is(i_, enc_) for i_ in (2, 3, 4, 5)]),
                       cls=['history'] + (['sum-empty'] if k == 0 else []))
         regs.append(Reg(ctx.ref(rid, 1), aff, sum(it.a for it in items) % L, sum(it.j for it in items) % 8))
     elif op == 'eq':
@@ -145,6 +147,17 @@ def step(ctx, regs, op=None):
         aff = ref.aff_neg(p.aff) if ch else p.aff
         rid = ctx.add('ed.cneg', p.tok, B(ch), expect=pts.expect_ed(aff), cls=['history', 'cond'])
         regs.append(Reg(ctx.ref(rid, 1), aff, (-p.a) % L if ch else p.a, (-p.j) % 8 if ch else p.j))
+    elif op == 'viamont':
+        # a point that comes back from the Montgomery form (to_montgomery then to_edwards with either sign): +-P, in
+        # whatever internal representation that conversion produces; it is used by later steps like any other register
+        if p.aff != ref.IDENT:
+            u = to32(ref.ed_to_mont(p.aff))
+            sign = rng.randrange(2)
+            m = ref.mont_to_ed(u, sign)
+            if m is not None:
+                neg = m != p.aff
+                rid = ctx.add('mt.toed', u.hex(), '#%d' % sign, expect=pts.expect_ed(m), cls=['history', 'history:viamont'])
+                regs.append(Reg(ctx.ref(rid, 1), m, (-p.a) % L if neg else p.a, (-p.j) % 8 if neg else p.j))
     elif op == 'groupview':
         # the group-crate traits on the register's current representation (predicates must not depend on Z)
         k = rng.choice([0, 1, L - 1, rng.randrange(L)])
@@ -276,7 +289,7 @@ def task(prop, seed, size, cfgbins):
 
 def run(prop, tier, seed, t0):
     from .. import plan
-    cfgs = ['simd', 'serial32', 'fiat64', 'avx512'] if tier == 'quick' else plan.ALL_CFGS
+    cfgs = plan.ALL_CFGS
     bins, notes, failed = plan.bins_for(cfgs, ('rel', 'chk') if tier == 'thorough' else ('rel',))
     if failed:
         return plan.fail_build(prop, failed)
